@@ -281,6 +281,23 @@ fn explore_scenario(sc: &Scenario, bound: usize, max_schedules: usize, run: &Run
 
 /// (3) every ordered history of up to three queries on one Regex: each result equals a fresh one.
 fn histories(run: &Run, st: &mut Stats) {
+    // case-insensitive backreferences canonicalize at match time: queries whose characters alias when a
+    // code point is truncated (U+10400 / U+0400, U+1E900 / U+E900, U+104B0 / U+04B0) or fold across planes
+    let fold_menu: Vec<(&str, usize, Mode)> = vec![
+        ("\u{428}\u{448}", 0, subject::BT),
+        ("\u{400}\u{428}", 0, subject::BT),
+        ("\u{10400}\u{10428}", 0, subject::BT),
+        ("\u{10428}\u{10400}", 0, subject::PIKE),
+        ("\u{448}\u{428}", 0, subject::PIKE),
+        ("k\u{212A}", 0, subject::BT),
+        ("s\u{17F}", 0, subject::BT),
+        ("Kk", 0, subject::BT_ASCII),
+        ("\u{1E900}\u{1E922}", 0, subject::BT),
+        ("\u{E900}\u{E922}", 0, subject::BT),
+        ("\u{4B0}\u{4B1}", 0, subject::BT),
+        ("\u{104B0}\u{104D8}", 0, subject::BT),
+    ];
+    histories_over(run, st, &fold_menu, &[("^(.)\\1$", "iu"), ("^(.)\\1$", "i"), ("(?<=\\1(.))$", "iu")]);
     let menu: Vec<(&str, usize, Mode)> = vec![
         ("aab", 0, subject::BT),
         ("aaa", 0, subject::BT),
@@ -296,7 +313,11 @@ fn histories(run: &Run, st: &mut Stats) {
         ("AAB", 0, subject::BT),
     ];
     let pats = [("(a+)+b", ""), ("(?:(a)|b)*", ""), ("(?<=(a))b", ""), ("(.)\\1?", "i"), ("\\b", ""), ("a*?", ""), ("(a)|(b)", ""), ("[^a]", "u")];
-    for (p, f) in pats {
+    histories_over(run, st, &menu, &pats);
+}
+
+fn histories_over(run: &Run, st: &mut Stats, menu: &[(&str, usize, Mode)], pats: &[(&str, &str)]) {
+    for &(p, f) in pats {
         let re = regress::Regex::with_flags(p, f).unwrap();
         let fresh: Vec<Vec<SMatch>> = menu
             .iter()
@@ -463,7 +484,7 @@ pub fn c19(run: &mut Run) -> Stats {
         run.caps.push(format!("{} scenarios stopped at the cap of {} schedules (explored depth-first in preemption order)", st.get("scenarios_capped"), max_schedules));
     }
     run.rule = format!(
-        "(1) compile-time: Regex, Match, Error are Send + Sync (the runner does not build otherwise); (2) {} scenarios (8 regexes exercising nested loops, captures, lookaround with saved stack, 1-char loops, backreferences, both executors and the ASCII entry point) x threads on one shared &Regex or on clones: every schedule with at most {} preemption(s), scheduling points = every interpreted instruction / backtrack pop (hook H1), real OS threads under a baton; oracle = sequential result on a fresh compile and an unchanged program fingerprint; (3) every ordered history of 1-3 queries from a 12-query menu on one Regex x 8 regexes, and every history of three texts written into one reused buffer (same allocation) plus an in-place edit, 6 regexes x 6^3 texts; (4) a free-running monitor (NOT exhaustive, labelled): four threads released from a barrier on a freshly compiled Regex, a few hundred trials, for races inside one instruction; non-trivial = the schedule really overlaps two threads inside the program / the query matches",
+        "(1) compile-time: Regex, Match, Error are Send + Sync (tools/sendsync is type-checked first; a failure there is reported as the violation); (2) {} scenarios (8 regexes exercising nested loops, captures, lookaround with saved stack, 1-char loops, backreferences, both executors and the ASCII entry point) x threads on one shared &Regex or on clones: every schedule with at most {} preemption(s), scheduling points = every interpreted instruction / backtrack pop (hook H1), real OS threads under a baton; oracle = sequential result on a fresh compile and an unchanged program fingerprint; (3) every ordered history of 1-3 queries from a 12-query menu on one Regex x 8 regexes, the same over a 12-query menu of case-insensitive backreference queries whose characters alias under truncation or fold across planes x 3 regexes, and every history of three texts written into one reused buffer (same allocation) plus an in-place edit, 6 regexes x 6^3 texts; (4) a free-running monitor (NOT exhaustive, labelled): four threads released from a barrier on a freshly compiled Regex, a few hundred trials, for races inside one instruction; non-trivial = the schedule really overlaps two threads inside the program / the query matches",
         scs.len(),
         bound
     );
